@@ -392,7 +392,8 @@ def checkC12 (h : History) (obs : List RunObs) : Option String :=
           -- the request log after the close is empty (checked by C13.late); inventory never shrinks below live objects (C01)
           none
         else none
-      let early := if "early-timeout".isPrefixOf o.anomaly then some o.anomaly else none
+      let early := if "early-timeout".isPrefixOf o.anomaly then some o.anomaly
+        else if (o.anomaly.splitOn "after the context was cancelled").length > 1 then some o.anomaly else none
       (badTimeout <|> badCancel <|> early).map (fun s => s!"C12 run {k}: {s}")
     | _, _ => none
 
